@@ -6,7 +6,8 @@
    subfields with canonical decimal ids: C01_field_roundtrip.
    and for whole messages (MTI, bitmap in Binary or Hex - auto-expanding with 1..n blocks, or fixed -, data elements over
    any such field specification): C01_message_roundtrip, C01_message_repack.
-   Track2 fields: C01_track2_roundtrip; Track3: C01_track3_parse_render. Track1 is modelled (Model/Track.v), tied to the library by
+   Track2 fields: C01_track2_roundtrip; Track3, Track1: C01_track3_parse_render, C01_track1_parse_render (parsing the rendered track returns the components;
+   the field-level packer / unpacker around it is the one of raw_roundtrip). Tracks are modelled (Model/Track.v), tied to the library by
    correspondence and exercised by the property oracle, without a theorem. *)
 From Iso Require Import Model.Base Model.Padding Model.Encoding Model.Prefix Model.Bitmap Model.Spec Model.Field Model.Message
      Proofs.BaseLemmas Proofs.PrefixProofs Proofs.FieldProofs Proofs.CompositeProofs Proofs.MessageRoundtrip Proofs.CoherenceCheck Gen.ShippedSpecs.
@@ -85,6 +86,15 @@ Theorem C01_track3_parse_render : forall t t0, t3_dom t ->
 Proof. exact track3_parse_render. Qed.
 Print Assumptions C01_track3_parse_render.
 
+(* Track1 (t1_dom: FixedLength off, one upper-case letter of format code, a PAN of 1..19 digits, a name of 2..26 characters
+   without ^ and without white space at its ends, an optional valid YYMM, an optional three-digit service code,
+   discretionary data without ? , without white space at its ends and other than the single character ^) *)
+Theorem C01_track1_parse_render : forall t t0, t1_dom t ->
+  t_parse T1 t0 (t_render T1 t) =
+  ({| tk_fixed := tk_fixed t0; tk_fc := tk_fc t; tk_pan := tk_pan t; tk_sep := []; tk_name := tk_name t; tk_exp := tk_exp t; tk_svc := tk_svc t; tk_dd := tk_dd t |}, Ok tt).
+Proof. exact track1_parse_render. Qed.
+Print Assumptions C01_track1_parse_render.
+
 (* non-vacuity, and instances of the composite / message level by computation *)
 Definition p_ex : pspec := {| ps_kind := KString; ps_enc := EncBCD; ps_pref := PVar PfBinary 5; ps_len := 300; ps_pad := PadNone; ps_packer := PkDefault |}.
 Example C01_ex_prim : coherent_pspec p_ex /\ prim_pack p_ex (SString [x31; x32; x33]) = Ok [x00; x00; x00; x00; x03; x01; x23].
@@ -114,8 +124,8 @@ Proof.
   - intros body H. vm_compute in H. injection H as <-. vm_compute. discriminate.
   - cbn. discriminate.
   - cbn [blookup bytes_eqb Byte.eqb andb]. split; [|split; [|exact I]]; intros _ x Hx; injection Hx as <-; (split; [|cbn; discriminate]).
-    + split; [change (0 <= 42 <= max_int); unfold max_int; lia|]. exists (itoa 42). repeat split; vm_compute; congruence.
-    + split; [exact I|]. exists [xab]. repeat split; vm_compute; congruence.
+    + apply prim_in_domain_of_strict. split; [change (0 <= 42 <= max_int); unfold max_int; lia|]. exists (itoa 42). repeat split; vm_compute; congruence.
+    + apply prim_in_domain_of_strict. split; [exact I|]. exists [xab]. repeat split; vm_compute; congruence.
 Qed.
 
 (* a composite with a bitmap of subfields: coherent, and an instance of the round trip *)
